@@ -287,6 +287,8 @@ def zip_store(rep, prog, rule, floor=20):
                                     src = rv[2][0]
                                 elif rv[0] == "use" and rv[1][0] in ("c", "m") and len(rv[1][1]) == 1:
                                     src = rv[1][1][0]
+                                elif rv[0] == "raw" and len(rv) > 2 and isinstance(rv[2], list):
+                                    src = rv[2][0]              # `&raw mut (*dst)`
                                 elif rv[0] in ("cast", "rawptr", "addr") and len(rv) > 2:
                                     try:
                                         src = rv[2][1][0] if rv[2][0] in ("c", "m") else rv[2][0]
